@@ -466,9 +466,18 @@ class Program:
                 self.rule('callee defined in another translation unit: resolved by qualified name and arity')
             except ExtractError:
                 ent = None
+                # several overloads with that arity: use the declared type of the callee (as written at the call site) to pick one
+                try:
+                    cd = tr.callee_decl(node)
+                    q = (cd.get('referencedDecl', {}) or {}).get('type', {}).get('qualType') or cd.get('type', {}).get('qualType')
+                    if q and '(' in q:
+                        ent = self.find(parent, name, sig=q[q.index('('):], nparams=nargs)
+                        self.rule('callee defined in another translation unit: overload picked by its declared parameter types')
+                except (ExtractError, AttributeError, KeyError):
+                    ent = None
                 # a file-local helper outside namespace romea (anonymous namespace at file scope) is not in the filtered dump: dump it by name
                 key = (tr.unit.tu, name)
-                if not parent and name and re.match(r'^[A-Za-z_]\w*$', name) and key not in self.extra_dumps:
+                if ent is None and not parent and name and re.match(r'^[A-Za-z_]\w*$', name) and key not in self.extra_dumps:
                     self.extra_dumps.add(key)
                     try:
                         self.add_unit(tr.unit.tu, tr.unit.workdir, flt=name)
@@ -1290,6 +1299,18 @@ class FnTranslator:
                 lv = self.lvalue(self.strip(e))
                 return self.flush() + [('return', ('addr', lv, ('ptr', lv[-1])))]
             t = self.T(e)
+            e0 = self.strip(e)
+            while e0['kind'] in ('ExprWithCleanups', 'MaterializeTemporaryExpr', 'CXXBindTemporaryExpr', 'ImplicitCastExpr') and len(self.inner(e0)) == 1 and self.strip(self.inner(e0)[0])['kind'] in ('ConditionalOperator', 'ExprWithCleanups', 'MaterializeTemporaryExpr', 'CXXBindTemporaryExpr', 'ImplicitCastExpr'):
+                e0 = self.strip(self.inner(e0)[0])
+            if e0['kind'] == 'ConditionalOperator' and t[0] in ('struct', 'eig', 'vector', 'optional'):
+                # return c ? A : B  with aggregate operands: if (c) return A; else return B;
+                c, a, b = self.inner(e0)
+                cond = self.expr(c)
+                pre = self.flush()
+                ra = self.stmt({'kind': 'ReturnStmt', 'inner': [a]})
+                rb = self.stmt({'kind': 'ReturnStmt', 'inner': [b]})
+                self.rule('return of a conditional expression with aggregate operands -> if/else with two returns')
+                return pre + [('if', cond, ra, rb)]
             if t[0] == 'eig':
                 ev = self.eig(e)
                 nm = self.tmp(t)
